@@ -534,6 +534,13 @@ def check_pandas_splitter(ctx, pairs, feature_index, label_index, multilabel, se
         labels = pandas.Series([10 * i for i in range(size)], index=_index(label_index, size, rng), name='y')
     try:
         actor = payload.PandasCVFolds(crossvalidator=exprgen.FixedCV(pairs))
+        if seed % 2:
+            # incremental training: the splitter starts from the state persisted by the previous training, whose batch was
+            # split otherwise - the folds of THIS batch are the ones the cross-validator decides now
+            ctx.count('pandas_splitter_retrained_from_state')
+            earlier = payload.PandasCVFolds(crossvalidator=exprgen.FixedCV([(te, tr) for tr, te in pairs][::-1]))
+            earlier.train(features, labels)
+            actor.set_state(earlier.get_state())
         actor.train(features, labels)
         clone = payload.PandasCVFolds(crossvalidator=exprgen.FixedCV([]))  # the fork applied to the labels gets the state only
         clone.set_state(actor.get_state())
